@@ -27,15 +27,30 @@ def lookup (tbl : List (String × String)) (k : String) : Option String := (tbl.
 /-- `tok.startswith("-") and not tok.startswith("--") and "c" in tok` -/
 def isCFlag (tok : String) : Bool := sw tok "-" && !sw tok "--" && Py.hasChar tok 'c'
 
-/-- what follows the first `-…c…` cluster (the loop runs over all tokens, the program name included) -/
-def afterCFlag : List String → Option (List String)
-  | [] => none
-  | t :: rest => if isCFlag t then some rest else afterCFlag rest
+/-- an option of the shell whose value is the next word: `--rcfile`/`--init-file`, or a `-…o`/`+…O` cluster
+    (`tok in _OPTIONS_WITH_VALUE or (len(tok) > 1 and tok[0] in "-+" and tok[1] != "-" and tok[-1] in "oO")`) -/
+def shellTakesValue (tok : String) : Bool :=
+  shell__OPTIONS_WITH_VALUE.contains tok ||
+    (match tok.toList with
+      | c0 :: c1 :: rest => (c0 == '-' || c0 == '+') && c1 != '-' && ((c1 :: rest).getLast? == some 'o' || (c1 :: rest).getLast? == some 'O')
+      | _ => false)
+
+/-- the scan for the `-…c…` cluster among the shell's own options (the words after the program name): it stops at
+    `--` and at the first word that is not an option; `skip` = the word is the value of the option before it.
+    Result: what follows the cluster. -/
+def afterCFlag : Bool → List String → Option (List String)
+  | _, [] => none
+  | true, _ :: rest => afterCFlag false rest
+  | false, t :: rest =>
+    if isCFlag t then some rest
+    else if shellTakesValue t then afterCFlag true rest
+    else if t == "--" || !(sw t "-" || sw t "+") then none
+    else afterCFlag false rest
 
 def shellClassify (tokens : List String) : Classification :=
   let base := tokens.headD "shell"
   if tokens.length < 2 then ask (base ++ " interactive")
-  else match afterCFlag tokens with
+  else match afterCFlag false (tokens.drop 1) with
     | none => ask (base ++ " interactive")
     | some [] => ask (base ++ " -c (no command)")
     | some (inner :: _) =>
@@ -213,29 +228,46 @@ def caffeinateClassify (tokens : List String) : Classification :=
 
 /-! ### script -/
 
-/-- the option loop: (options seen, what remains from the first operand on) -/
-def scriptSkip : Bool → List String → List String → List String × List String
-  | _, [], seen => (seen, [])
+/-- one option word: a cluster of the tabled one-letter flags.  `none`: a letter outside the tables (or `--…`, or `-`
+    alone); `some true`: the cluster ends in a flag that takes a value (the next word); `some false` otherwise
+    (a value flag earlier in the cluster has its value attached) -/
+def scriptCluster : List Char → Option Bool
+  | [] => some false
+  | c :: rest =>
+    if script_FLAGS_WITH_ARG.contains ("-" ++ String.singleton c) then some rest.isEmpty
+    else if script_FLAGS_NO_ARG.contains ("-" ++ String.singleton c) then scriptCluster rest
+    else none
+
+def scriptOption (t : String) : Option Bool :=
+  if sw t "--" || t.length < 2 then none else scriptCluster (t.toList.drop 1)
+
+/-- the option loop: `none` = an option the handler does not know; otherwise (options seen, what remains from the
+    first operand on) -/
+def scriptSkip : Bool → List String → List String → Option (List String × List String)
+  | _, [], seen => some (seen, [])
   | true, t :: rest, seen => scriptSkip false rest (seen ++ [t])
   | false, t :: rest, seen =>
-    if t == "--" then (seen ++ [t], rest)
+    if t == "--" then some (seen ++ [t], rest)
     else if sw t "-" then
-      if script_FLAGS_WITH_ARG.contains t then scriptSkip true rest (seen ++ [t])
-      else scriptSkip false rest (seen ++ [t])
-    else (seen, t :: rest)
+      match scriptOption t with
+      | none => none
+      | some takes => scriptSkip takes rest (seen ++ [t])
+    else some (seen, t :: rest)
 
 def scriptPlayback (t : String) : Bool := t == "-p" || (sw t "-" && Py.hasChar t 'p' && !sw t "--")
 
 def scriptClassify (tokens : List String) : Classification :=
   if tokens.length < 2 then ask "script interactive"
   else
-    let (seen, remaining) := scriptSkip false (tokens.drop 1) []
-    match remaining with
-    | [] => ask "script interactive"
-    | _file :: command =>
-      if command.isEmpty then
-        if seen.any scriptPlayback then allow (some "script -p (playback)") else ask "script interactive"
-      else delegate (bashJoin command)
+    match scriptSkip false (tokens.drop 1) [] with
+    | none => ask "script (unrecognized option)"
+    | some (seen, remaining) =>
+      match remaining with
+      | [] => ask "script interactive"
+      | _file :: command =>
+        if command.isEmpty then
+          if seen.any scriptPlayback then allow (some "script -p (playback)") else ask "script interactive"
+        else delegate (bashJoin command)
 
 /-! ### uv run -/
 
@@ -311,7 +343,7 @@ def tarClassify (tokens : List String) : Classification :=
   | some other => ask (base ++ " " ++ other)
   | none =>
     let cmds := (tarToCommands (tokens.drop 1)).filter (fun c => !c.isEmpty)
-    if !cmds.isEmpty then delegate ("\n".intercalate cmds) (some (base ++ " --to-command"))
+    if !cmds.isEmpty && tarDetect tokens == some "extract" then delegate ("\n".intercalate cmds) (some (base ++ " --to-command"))
     else match tarDetect tokens with
       | some "list" => allow (some (base ++ " list"))
       | some op => ask (base ++ " " ++ op)
@@ -340,5 +372,19 @@ def dockerExecInner : Bool → List String → Option (List String)
 def kubectlExecInner : List String → Option (List String)
   | [] => none
   | t :: rest => if t == "--" then (if rest.isEmpty then none else some rest) else kubectlExecInner rest
+
+/-- kubectl.py `_first_operand`: the words from the first one that is neither a flag nor (`skip`) the value of a
+    flag in `FLAGS_WITH_ARG` -/
+def kubectlOperands : Bool → List String → List String
+  | _, [] => []
+  | true, _ :: rest => kubectlOperands false rest
+  | false, t :: rest => if sw t "-" then kubectlOperands (kubectl_FLAGS_WITH_ARG.contains t) rest else t :: rest
+
+/-- the delegation `classify` of kubectl.py makes: the action (first operand) is `exec` – which is in none of the
+    action/subcommand tables (`Props.C13.exec_not_tabled`) – and words follow the first `--` after it -/
+def kubectlDelegates (tokens : List String) : Option (List String) :=
+  match kubectlOperands false (tokens.drop 1) with
+  | action :: rest => if action == "exec" then kubectlExecInner rest else none
+  | [] => none
 
 end Dippy.W
